@@ -235,7 +235,7 @@ impl HandleRequest for EAppend {
             }],
         ) {
             Ok(transaction) => transaction,
-            Err(err) => return Err(err.to_string()),
+            Err(err) => return Err(ErrorCode::InvalidArg.with_message(err)),
         };
 
         let append = conn
